@@ -516,7 +516,9 @@ def gen_cases(rng, n, tier):
 
 
 def correspond_entry(ctx, res, impl):
-    cases = gen_cases(ctx.rng, ctx.n(150, 3000), ctx.tier)
+    # own PRNG derived from VERIF_SEED: the history families that run after this one keep the random streams they had
+    import random
+    cases = gen_cases(random.Random("C01-entry:%s" % ctx.seed), ctx.n(150, 3000), ctx.tier)
     rows = run_cases(ctx, impl, cases)
     for row in rows:
         c, out, log, mk, ok = row
